@@ -169,6 +169,14 @@ Definition remove_from_caches (h : heap) (ids : list id) : heap :=
 (* ---------------- Node methods ---------------- *)
 Definition is_childless (r : nrec) : bool := negb (is_elem r).
 
+(* the link updates of Node.removeChild(p, c), in the order the method performs them *)
+Definition unlink (f : id -> nrec) (p c : id) : id -> nrec :=
+  let f1 := upd f p (with_kids (f p) (remove_first c (kids (f p)))) in
+  let C := f1 c in
+  let f2 := match next C with Some nx => upd f1 nx (with_prev (f1 nx) (prev C)) | None => f1 end in
+  let f3 := match prev C with Some pv => upd f2 pv (with_next (f2 pv) (next C)) | None => f2 end in
+  upd f3 c (with_parent (with_prev (with_next (f3 c) None) None) None).
+
 (* Node.removeChild(p, c) *)
 Definition remove_child (h : heap) (p c : id) : res :=
   let P := nodes h p in
@@ -177,11 +185,7 @@ Definition remove_child (h : heap) (p c : id) : res :=
   | None => RRaise NotFoundErr h
   | Some _ =>
       let sub := subtree_ids h c in                      (* the subtree while still linked *)
-      let h1 := setf h p (fun r => with_kids r (remove_first c (kids r))) in
-      let C := nodes h1 c in
-      let h2 := match next C with Some nx => setf h1 nx (fun r => with_prev r (prev C)) | None => h1 end in
-      let h3 := match prev C with Some pv => setf h2 pv (fun r => with_next r (next C)) | None => h2 end in
-      let h4 := setf h3 c (fun r => with_parent (with_prev (with_next r None) None) None) in
+      let h4 := set_nodes h (unlink (nodes h) p c) in
       let h5 := if owner (nodes h4 p) && is_elem (nodes h4 c) then remove_from_caches h4 sub else h4 in
       let h6 := set_nodes h5 (fun j => if existsb (Nat.eqb j) sub then with_owner (nodes h5 j) false else nodes h5 j) in
       ROk h6
@@ -196,19 +200,36 @@ Definition adopt (h : heap) (p c : id) : heap :=
   let h1 := set_owner h c o in
   if o && is_elem (nodes h1 c) then rebuild_caches h1 c else h1.
 
+(* _append_child(p, c); c.nextSibling = None *)
+Definition link_last (f : id -> nrec) (p c : id) : id -> nrec :=
+  let ks := kids (f p) in
+  let f2 := match last_opt ks with
+            | Some l => let f1 := upd f c (with_prev (f c) (Some l)) in upd f1 l (with_next (f1 l) (Some c))
+            | None => f
+            end in
+  let f3 := upd f2 p (with_kids (f2 p) (kids (f2 p) ++ [c])) in
+  upd f3 c (with_next (with_parent (f3 c) (Some p)) None).
+
 (* Node.appendChild(p, c) *)
 Definition append_child (h : heap) (p c : id) : res :=
   let P := nodes h p in
   if is_childless P then RRaise HierarchyErr h else
   bind_res (match parent (nodes h c) with Some op => remove_child h op c | None => ROk h end) (fun h1 =>
-    let ks := kids (nodes h1 p) in
-    let h2 := match last_opt ks with
-              | Some l => setf (setf h1 c (fun r => with_prev r (Some l))) l (fun r => with_next r (Some c))
-              | None => h1
-              end in
-    let h3 := setf h2 p (fun r => with_kids r (kids r ++ [c])) in
-    let h4 := setf h3 c (fun r => with_next (with_parent r (Some p)) None) in
-    ROk (adopt h4 p c)).
+    ROk (adopt (set_nodes h1 (link_last (nodes h1) p c)) p c)).
+
+(* the link updates of insertBefore(p, c, r) with r at position i of p's children *)
+Definition link_before (f : id -> nrec) (p c r : id) (i : nat) : id -> nrec :=
+  let f2 := upd f p (with_kids (f p) (insert_at i c (kids (f p)))) in
+  let f3 := upd f2 c (with_next (f2 c) (Some r)) in
+  let f4 := upd f3 r (with_prev (f3 r) (Some c)) in
+  let f5 := match i with
+            | S i' => match nth_error (kids (f p)) i' with
+                      | Some pv => let g := upd f4 pv (with_next (f4 pv) (Some c)) in upd g c (with_prev (g c) (Some pv))
+                      | None => f4
+                      end
+            | O => upd f4 c (with_prev (f4 c) None)
+            end in
+  upd f5 c (with_parent (f5 c) (Some p)).
 
 (* Node.insertBefore(p, c, ref) *)
 Definition insert_before (h : heap) (p c : id) (ref : option id) : res :=
@@ -224,19 +245,7 @@ Definition insert_before (h : heap) (p c : id) (ref : option id) : res :=
           bind_res (match parent (nodes h c) with Some op => remove_child h op c | None => ROk h end) (fun h1 =>
             match index_of r (kids (nodes h1 p)) with
             | None => RRaise NotFoundErr h1
-            | Some i =>
-                let h2 := setf h1 p (fun x => with_kids x (insert_at i c (kids x))) in
-                let h3 := setf h2 c (fun x => with_next x (Some r)) in
-                let h4 := setf h3 r (fun x => with_prev x (Some c)) in
-                let h5 := match i with
-                          | S i' => match nth_error (kids (nodes h1 p)) i' with
-                                    | Some pv => setf (setf h4 pv (fun x => with_next x (Some c))) c (fun x => with_prev x (Some pv))
-                                    | None => h4
-                                    end
-                          | O => setf h4 c (fun x => with_prev x None)
-                          end in
-                let h6 := setf h5 c (fun x => with_parent x (Some p)) in
-                ROk (adopt h6 p c)
+            | Some i => ROk (adopt (set_nodes h1 (link_before (nodes h1) p c r i)) p c)
             end)
       end
   end.
@@ -250,7 +259,8 @@ Definition new_node (h : heap) (k : nkind) : heap * id :=
   (mkH (upd (nodes h) (alloc h) (mkN k None [] None None false None)) (S (alloc h)) (edict h) (sdict h), alloc h).
 
 Definition add_text (h : heap) (p : id) (allowed : bool) (empty : bool) (cdata : bool) : res :=
-  if negb allowed then RRaise IllegalText h
+  if negb (is_elem (nodes h p)) then RRaise AttributeErr h    (* addText/addCDATA are Element methods *)
+  else if negb allowed then RRaise IllegalText h
   else if empty && negb cdata then ROk h
   else let '(h1, t) := new_node h (if cdata then KCData else KText) in append_child h1 p t.
 
